@@ -23,6 +23,7 @@ obligation that is NOT provable into a concrete counterexample (or leave it unde
 from __future__ import annotations
 
 import math
+import time
 from fractions import Fraction
 from typing import Dict, Optional, Tuple
 
@@ -31,8 +32,12 @@ from .indic_vals import D
 INF = math.inf
 TOL = 1e-11
 
+
+class Budget(Exception):
+    """the proof search ran out of its work budget: the obligation stays undecided"""
+
 OPEN, CLOSE, HIGH, LOW, VOL = 1, 2, 3, 4, 5
-_LINEAR = ("add", "sub", "neg", "mul", "div", "dep")
+_LINEAR = ("add", "sub", "neg", "mul", "div", "dep", "nan_to_num")
 
 
 def _isnum(x):
@@ -54,6 +59,8 @@ class Prover:
         self.node: Dict[int, D] = {}
         self.le_memo: Dict[Tuple[int, int], bool] = {}
         self.budget = 400000
+        self.work = 3_000_000
+        self.deadline = time.time() + 20.0
 
     def _resolve(self, d):
         while isinstance(d, D) and d.op in ("phi", "phi1") and len(d.args) == 3 and isinstance(d.args[0], D) and d.args[0].h in self.assume:
@@ -71,6 +78,9 @@ class Prover:
             return ({}, float(d)) if _isnum(d) else None
         if d.h in self.lin:
             return self.lin[d.h]
+        self.work -= 1
+        if self.work <= 0 or (self.work % 2000 == 0 and time.time() > self.deadline):
+            raise Budget()
         r = self._linear(d)
         self.lin[d.h] = r
         return r
@@ -83,7 +93,7 @@ class Prover:
         op = d.op
         if op not in _LINEAR:
             return self._atom(d)
-        if op == "dep":
+        if op in ("dep", "nan_to_num"):
             return self.linear(d.args[0]) if d.args else self._atom(d)
         if op == "neg":
             f = self.linear(d.args[0])
@@ -91,6 +101,8 @@ class Prover:
         if op in ("add", "sub"):
             fa, fb = self.linear(d.args[0]), self.linear(d.args[1])
             if fa is None or fb is None:
+                return self._atom(d)
+            if len(fa[0]) + len(fb[0]) > 600:
                 return self._atom(d)
             s = 1.0 if op == "add" else -1.0
             out = dict(fa[0])
@@ -128,6 +140,8 @@ class Prover:
                 return (0.0, 1.0)
             if _isnum(d):
                 return (float(d), float(d))
+            if isinstance(d, float) and d != d:
+                return (INF, -INF)          # the constant NaN: "not a number here" - the empty interval (ignored by the hull of a choice)
             return (-INF, INF)
         # iterative post-order (DAGs are deep)
         stack = [d]
@@ -160,6 +174,9 @@ class Prover:
         return self.interval(a)
 
     def _interval(self, d) -> Tuple[float, float]:
+        self.work -= 1
+        if self.work <= 0:
+            raise Budget()
         op = d.op
         if op == "in":
             col = d.args[2] if len(d.args) > 2 else None
@@ -211,8 +228,10 @@ class Prover:
             return (0.0, INF)
         if op in ("argmax", "argmin"):
             return (0.0, float(max(len(d.args) - 1, 0)))
-        if op in ("lt", "le", "gt", "ge", "eq", "ne", "and", "or", "not", "invert", "isnan", "isinf", "isfinite"):
+        if op in ("lt", "le", "gt", "ge", "eq", "ne", "and", "or", "not", "invert", "isnan", "isinf", "isfinite", "bitand", "bitor", "bitxor"):
             return (0.0, 1.0)
+        if op in ("nan_to_num", "round", "roundn", "float", "copy"):
+            return A[0] if A else (-INF, INF)
         if op == "exp":
             lo, hi = A[0]
             return (0.0 if lo == -INF else math.exp(min(lo, 700)), INF if hi > 700 else math.exp(hi))
@@ -392,6 +411,12 @@ class Prover:
 
     # ---------------------------------------------------------------- order prover
     def _form_nonneg(self, co, c0) -> bool:
+        self.work -= len(co) + 1
+        if self.work <= 0 or time.time() > self.deadline:
+            raise Budget()
+        return self._form_nonneg2(co, c0)
+
+    def _form_nonneg2(self, co, c0) -> bool:
         """sum(co[k] * atom_k) + c0 >= 0 for every valid valuation: every negative atom is paired with a dominating positive
         atom of at least the same weight, what remains has the right sign"""
         co = {k: v for k, v in co.items() if v != 0.0}
@@ -400,6 +425,26 @@ class Prover:
         pos = {k: v for k, v in co.items() if v > 0}
         neg = {k: -v for k, v in co.items() if v < 0}
         const = c0
+        ws = list(pos.values()) + list(neg.values())
+        if neg and pos and max(ws) - min(ws) <= 1e-9 * max(ws) and len(neg) <= len(pos) and len(neg) <= 200:
+            # equal weights: a perfect matching of the negative atoms into dominating positive atoms (augmenting paths) - the greedy
+            # pairing below fails when one positive atom dominates two negative ones (max(h[i], c[i-1]) dominates c[i] and c[i-1])
+            adj = {q: [p_ for p_ in pos if self.le(self.node[q], self.node[p_])] for q in neg if self._iv(self.node[q])[1] > 0}
+            match = {}
+
+            def aug(q, seen):
+                for p_ in adj[q]:
+                    if p_ in seen:
+                        continue
+                    seen.add(p_)
+                    if p_ not in match or aug(match[p_], seen):
+                        match[p_] = q
+                        return True
+                return False
+            if all(aug(q, set()) for q in adj):
+                rest = [p_ for p_ in pos if p_ not in match]
+                if all(self._iv(self.node[p_])[0] >= 0 for p_ in rest) and const >= -TOL * max(1.0, abs(c0)):
+                    return True
         for q in list(neg):
             need = neg[q]
             lq, hq = self._iv(self.node[q])
@@ -580,7 +625,7 @@ def _dim_node(d, A):
         return None
     if op in ("add", "sub", "max", "min", "fmax", "fmin", "median", "mean", "nanmean"):
         return _join(A)
-    if op in ("neg", "abs", "fabs", "dep", "std", "nanstd", "round", "roundn"):
+    if op in ("neg", "abs", "fabs", "dep", "std", "nanstd", "round", "roundn", "nan_to_num", "float", "copy"):
         return A[0] if A else None
     if op == "var":
         j = _join(A)
